@@ -18,9 +18,10 @@ mv $T /tmp/seeded_$ID.rs.hold
 suite=$(cargo test --workspace --no-fail-fast --offline 2>&1 | grep -E "^test result" | head -1)
 mv /tmp/seeded_$ID.rs.hold $T
 with=$(cargo test -p altrios-core --offline --test seeded_$ID 2>&1 | grep -E "^test result" | head -1)
-git -C $WT stash push -q -- rust/altrios-core/src
+# (no `git stash`: the stash is shared by all worktrees of a repository)
+git -C $WT checkout -- rust/altrios-core/src
 without=$(cargo test -p altrios-core --offline --test seeded_$ID 2>&1 | grep -E "^test result" | head -1)
-git -C $WT stash pop -q
+git -C $WT apply $S/patch.diff
 echo "CONFIRM $ID suite-with-change: $suite"
 echo "CONFIRM $ID demo-with-change:  $with"
 echo "CONFIRM $ID demo-without:      $without"
